@@ -392,6 +392,14 @@ def mergeBounds (a b : Bounds) : Bounds :=
 
 def tolFor (A B : Placed) : Rat := (1 / 1000000) * (1 + A.size + B.size)
 
+/-- shapes with curved edges (cone / cylinder rims): GJK only converges asymptotically on them and its fallback exits
+stop at about `1e-5` relative precision, so the support-slack tolerance is ten times the membership tolerance -/
+def Sh.curved : Sh → Bool
+  | .cone .. => true
+  | .cylinder .. => true
+  | _ => false
+def slackTolFor (A B : Placed) : Rat := tolFor A B * (if A.sh.curved || B.sh.curved then 10 else 1)
+
 /-- all the independent knowledge about the true distance: exact closed form (half-space pairs), certified hint
 pairs, certified overlap candidates -/
 def knowledge (A B : Placed) (hints : List Res) (extraPts : List Q3) (planar : Bool) : Bounds :=
@@ -425,7 +433,7 @@ def judgeCP (A B : Placed) (maxDist : Rat) (res : Res) (hints : List Res) (extra
         if gap ≤ 2 * tol then "pass" else
         match supportSlack A B w1 w2 with
         | some (sA, sB) =>
-            if sA ≤ tol && sB ≤ tol then "pass"
+            if maxQ 0 sA + maxQ 0 sB ≤ slackTolFor A B then s!"pass slack/tol={showQ ((maxQ 0 sA + maxQ 0 sB) / slackTolFor A B)}"
             else
               -- slack found: the pair is not supported by its own direction; quantify with the hint if there is one
               let better := match kn.hi with | some h => s!" certified-upper-bound={showQ h}" | none => ""
